@@ -898,7 +898,7 @@ RULE = ('cases are enumerated by check.py (single enumerator) and evaluated by t
         '0x00-0xff, pushes completed, + non-minimal/truncated/oversized pushes) x %d boundary stacks x 7 (sigversion,flags) configs; flags = atoms x %d stacks x '
         '3 sigversions x (13 single flags + union of non-EvalScript flags); cond = all IF/NOTIF/ELSE/ENDIF/VERIF/0/1/CAT/RESERVED/NOP sequences to length %s; '
         'arith = ordered pairs of numeric opcodes on depth-3 stacks; limits (201/202 ops, 1000/1001 items, 10000/10001 bytes, 520/521 pushes); multisig n,m<=3 all '
-        'key/signature sequences + n,m in -1..22 structured; sigenc (33 signature x 12 key encodings x 32 flag subsets); scriptcode (CODESEPARATOR subsets x '
+        'key/signature sequences + n,m in -1..22 structured; sigenc (31 signature x 12 key encodings x 32 flag subsets); scriptcode (CODESEPARATOR subsets x '
         'FindAndDelete); tapsig (BIP342 sig opcodes, weight 50k+-1); locktime grids; wrap = atoms x 19 stacks x {bare,P2SH,P2WSH,P2SH-P2WSH,P2TR} x 6 flag '
         'sets via VerifyScript; witness = %d directed dispatch cases x all %d valid subsets of 11 dispatch flags%s. '
         'Compared: success flag, SHA256 of final stack on success, ScriptError class. distinct_nontrivial = number of (distinct by construction) cases that '
